@@ -49,8 +49,9 @@ def stdp():
     return learn.STDP(1.0, -0.5, TC_POST, TC_PRE, batch_reduction=torch.sum)
 
 
-def expected_monitors(e, obs_post, obs_pre, mode="cumulative"):
-    """Closed forms of the four STDP monitors over the recorded (armed) steps; an entry is None when that monitor has recorded nothing."""
+def expected_monitors(e, obs_post, obs_pre, mode="cumulative", obs_spike_post=None):
+    """Closed forms of the four STDP monitors over the recorded (armed) steps; an entry is None when that monitor has recorded nothing.
+    obs_spike_post: the history of the spike_post monitor when it is not the same pooled history as trace_post's."""
     out = {"trace_post": None, "spike_post": None, "trace_pre": None, "spike_pre": None}
     for side, obs, decay, amp in (("post", obs_post, K(math.exp(-DT / TC_POST)), K(0.5)), ("pre", obs_pre, K(math.exp(-DT / TC_PRE)), K(1.0))):
         if not obs:
@@ -60,6 +61,8 @@ def expected_monitors(e, obs_post, obs_pre, mode="cumulative"):
         for pos in np.ndindex(B, n):
             tr[pos] = trace_closed([num(o[pos]) for o in obs], decay, amp, mode)
         out["trace_" + side], out["spike_" + side] = tr, obs[-1]
+    if obs_spike_post is not None:
+        out["spike_post"] = obs_spike_post[-1] if obs_spike_post else None
     return out
 
 
@@ -71,7 +74,7 @@ def check_trainer(e, trainer, cells_model, label, prog, step):
         mons = dict(trainer.named_monitors_of(cname))
         want_names = ["spike_post", "spike_pre", "trace_post", "trace_pre"] + (["user"] if mdl.get("user") is not None else [])
         e.oblige(label + ":monitor-listing", sorted(mons) == sorted(want_names), got=str(sorted(mons)), cell=cname, program=prog, step=step)
-        exp = expected_monitors(e, mdl["obs_post"], mdl["obs_pre"])
+        exp = expected_monitors(e, mdl["obs_post"], mdl["obs_pre"], obs_spike_post=mdl.get("obs_spike"))
         if mdl.get("user") is not None:
             # user-added monitor: cumulative trace (tc 5, amplitude 1) of the post-synaptic spikes over the armed steps since it was added
             obs = mdl["user"]
@@ -107,12 +110,30 @@ def h_single(e, cfg):
     tr = stdp()
     e.tag(layer=cfg["layer"], scenario="single-trainer")
     model = {}
-    shared_post = []          # post-side monitors of cells sharing the neuron group are pooled: one history per trainer and group
+    # post-side monitors of cells sharing the neuron group are pooled per monitor name: one history per trainer, group and name, alive
+    # while at least one cell aliases it (a cell registered later joins it; when the last alias goes a later cell starts a fresh one)
+    pool = {"trace": [], "spike": []}
+
+    def join(c):
+        model[c] = dict(obs_post=pool["trace"], obs_spike=pool["spike"], obs_pre=[], user=None)
+
+    def release():
+        for key, fld in (("trace", "obs_post"), ("spike", "obs_spike")):
+            if not any(m[fld] is pool[key] for m in model.values()):
+                pool[key] = []
+
+    def lists():
+        seen, out = set(), []
+        for m in model.values():
+            for fld in ("obs_post", "obs_spike", "user"):
+                if m.get(fld) is not None and id(m[fld]) not in seen:
+                    seen.add(id(m[fld])); out.append(m[fld])
+        return out
     for c in cfg["initial"]:
         tr.register_cell(c, cells[c])
-        model[c] = dict(obs_post=shared_post, obs_pre=[])
+        join(c)
     t_train, l_train = True, True
-    ops = [o for o in OPS if ("B" not in o or "B" in cells)] + (["add M", "del M"] if cfg.get("user") else [])
+    ops = [o for o in OPS if ("B" not in o or "B" in cells)] + (["add M", "del M", "rep A"] if cfg.get("user") else [])
     prog = []
     nstep = 0
     plan = list(cfg.get("prefix", [])) + [None] * cfg["free"]
@@ -132,11 +153,10 @@ def h_single(e, cfg):
                 pres = {"A": e.read(xa)}
             nstep += 1
             if t_train and l_train and model:
-                shared_post.append(e.read(post))
+                for lst in lists():
+                    lst.append(e.read(post))
                 for c in model:
                     model[c]["obs_pre"].append(pres[c])
-                    if model[c].get("user") is not None:
-                        model[c]["user"].append(e.read(post))
         elif op == "t.eval":
             tr.eval(); t_train = False
         elif op == "t.train":
@@ -147,9 +167,10 @@ def h_single(e, cfg):
             layer.train(); l_train = True
         elif op == "t.clear":
             tr.clear()
-            del shared_post[:]
+            for lst in lists():
+                del lst[:]
             for c in model:
-                model[c] = dict(obs_post=shared_post, obs_pre=[], user=([] if model[c].get("user") is not None else None))
+                model[c]["obs_pre"] = []
         elif op == "add M":
             # add_monitor on a registered cell: a user monitor with its own name, reducer and tags (never aliased with the trainer's)
             if "A" in model and model["A"].get("user") is None:
@@ -158,6 +179,16 @@ def h_single(e, cfg):
                     reducer=ob.CumulativeTraceReducer(DT, 5.0, amplitude=1.0, target=True, duration=0.0, inclusive=True),
                     as_prehook=False, train_update=True, eval_update=False, prepend=True), False, dt=DT, tc=5.0, purpose="user")
                 model["A"]["user"] = []
+        elif op == "rep A":
+            # replace cell A's (possibly pooled) "spike_post" monitor by a unique one of the same name: a cell that shares the pooled
+            # monitor keeps it (and its history); A's new monitor starts empty
+            if "A" in model:
+                import inferno.observe as ob
+                tr.add_monitor("A", "spike_post", "neuron.spike", ob.StateMonitor.partialconstructor(
+                    reducer=ob.PassthroughReducer(DT, duration=0.0, inclusive=True),
+                    as_prehook=False, train_update=True, eval_update=False, prepend=True), True, dt=DT)
+                model["A"]["obs_spike"] = []
+                release()
         elif op == "del M":
             if "A" in model and model["A"].get("user") is not None:
                 tr.del_monitor("A", "user")
@@ -167,15 +198,14 @@ def h_single(e, cfg):
             if c in model:
                 tr.del_cell(c)
                 del model[c]
-                if not model:
-                    del shared_post[:]       # the last alias is gone: the pooled monitor is dropped
+                release()       # a pooled monitor whose last alias is gone is dropped
         elif op.startswith("reg "):
             c = op[-1]
             if c not in model:
                 tr.register_cell(c, cells[c])
-                model[c] = dict(obs_post=shared_post, obs_pre=[])
+                join(c)
         else:
-            ready = bool(model) and all(m["obs_post"] and m["obs_pre"] for m in model.values())
+            ready = bool(model) and all(m["obs_post"] and m["obs_spike"] and m["obs_pre"] for m in model.values())
             if ready and t_train and l_train:
                 tr()          # must succeed: complete, current data
                 for c in cells.values():
@@ -326,7 +356,7 @@ def checks(tier):
 
 
 BOUNDS = {
-    "quick": {"programs": "all programs of 3-4 operations (after the fixed prefixes [], [step], [step, step], [step, del A], [t.eval, step]; 2 operations after the arm/disarm-cycle prefixes [t.eval, t.train], [t.eval, t.train, t.eval, t.train], [L.eval, L.train, t.eval, t.train], [step, t.eval, t.train, t.eval]) over {layer step, trainer train/eval, layer train/eval, add_monitor/del_monitor of a user monitor (in the configurations that enable it), "
+    "quick": {"programs": "all programs of 3-4 operations (after the fixed prefixes [], [step], [step, step], [step, del A], [t.eval, step]; 2 operations after the arm/disarm-cycle prefixes [t.eval, t.train], [t.eval, t.train, t.eval, t.train], [L.eval, L.train, t.eval, t.train], [step, t.eval, t.train, t.eval]) over {layer step, trainer train/eval, layer train/eval, add_monitor/del_monitor of a user monitor and replacement of a pooled monitor through add_monitor(unique=True) (in the configurations that enable it), "
                           "trainer clear, del/register cell A/B, trainer step}; two-trainer programs of 4 operations over {step, t2 register/del/eval/train/clear, drop t2}",
               "layers": "Serial (1 cell), a Biclique whose two cells share the post-synaptic group, and one trainer over two separate Serial layers of identical structure (programs of 3 operations)", "trainers": "STDP (one or two, same or different hyper-parameters), MSTDPET",
               "observations": "fresh symbolic spikes each step; monitor contents compared with the closed-form trace over exactly the armed steps"},
